@@ -5,7 +5,9 @@ cd "$(dirname "$0")"
 export CARGO_NET_OFFLINE=true
 mkdir -p build evidence replays
 python3 tools/gen_tables.py
-(cd lean && lake build Blots blotsmodel)
+PROPS=""
+for f in lean/Blots/Props/C*.lean; do b=$(basename "$f" .lean); PROPS="$PROPS Blots.Props.$b"; done
+(cd lean && lake build Blots blotsmodel $PROPS)
 (cd harness && cargo build --release --offline)
 (cd /repo && cargo build --offline -p blots --target-dir /verif/build/repo-target)
 (cd /repo && cargo build --release --offline -p blots --target-dir /verif/build/repo-target)
